@@ -651,4 +651,8 @@ func init() {
 	RegisterGen("C16", forFormats(genC16))
 	RegisterGen("C17", forFormats(genC17))
 	RegisterGen("C18", forFormats(genC18))
+	// C17 "a pull decoder reports the same events": every Next after the first is a use of a
+	// decoder that has completely processed documents
+	RegisterGen("C17", forFormats(genC18))
+	RegisterGen("C17", onlyOp("dec", genJsonDecTargets))
 }
